@@ -112,6 +112,10 @@ def Data.appendObs (d : Data) (t : Str) (v l s : Option Rat) : Except Err Data :
   let s' ← req (colAppend d.snr t s)
   pure { d with obs := o, lli := l', snr := s' }
 
+/-- one `data[grp][t].append(…)` for the three groups per entry of `ts`, in order -/
+def appendAll (d : Data) (ts : List (Str × Option Rat × Option Rat × Option Rat)) : Except Err Data :=
+  ts.foldlM (fun d (x : Str × Option Rat × Option Rat × Option Rat) => d.appendObs x.1 x.2.1 x.2.2.1 x.2.2.2) d
+
 def Data.dropType (d : Data) (t : Str) : Data :=
   { d with obs := d.obs.filter (·.1 != t), lli := d.lli.filter (·.1 != t), snr := d.snr.filter (·.1 != t) }
 
